@@ -15,6 +15,7 @@ func init() {
 		Explain: "Decides RPC gating for every request sequence as shape facts of the dispatcher: every handler call in AgentIPC.handleRequest except the handshake is unreachable once the edges establishing 'version != 0' (and 'command == handshake') are cut, and every handler call except handshake and auth is unreachable once the edges establishing 'no auth key configured', 'didAuth', 'command == auth' and 'command == handshake' are cut; each call sits in the switch arm of its own command constant (the command is never written); handlers are called from nowhere else and the dispatcher only from the client loop; IPCClient.version is written only by the handshake handler behind version-in-range ∧ not-yet-set, didAuth only by the auth handler behind key equality; both reject paths send a header carrying the request's sequence number and a non-empty constant error before returning; the dispatcher itself touches no agent state.",
 		Run:     runC24,
 		Mutants: []Mutant{
+			{Name: "gate-discards-body", File: "cmd/serf/command/agent/ipc.go", Func: "func (i *AgentIPC) handleRequest(", Old: "\t\trespHeader := responseHeader{Seq: seq, Error: authRequired}\n\t\tclient.Send(&respHeader, nil)\n\t\treturn nil\n", New: "\t\trespHeader := responseHeader{Seq: seq, Error: authRequired}\n\t\tclient.Send(&respHeader, nil)\n\t\tvar skipped any\n\t\t_ = client.dec.Decode(&skipped)\n\t\treturn nil\n", Expect: "R5"},
 			{Name: "rename-locals", Equivalent: true, Regexp: true, File: "cmd/serf/command/agent/ipc.go", Func: "func (i *AgentIPC) handleHandshake(", Old: `\b(req|resp)\b`, New: "${1}Renamed"},
 			{Name: "stats-before-auth", File: "cmd/serf/command/agent/ipc.go", Func: "func (i *AgentIPC) handleRequest(", Old: "\t// Ensure the client has authenticated after the handshake if necessary\n", New: "\tif command == statsCommand {\n\t\treturn i.handleStats(client, seq)\n\t}\n", Expect: "R1"},
 			{Name: "auth-gate-or", File: "cmd/serf/command/agent/ipc.go", Func: "func (i *AgentIPC) handleRequest(", Old: "i.authKey != \"\" && !client.didAuth && command != authCommand && command != handshakeCommand", New: "i.authKey != \"\" && !client.didAuth && command != authCommand && command != handshakeCommand && command != membersCommand", Expect: "R1"},
@@ -30,6 +31,7 @@ func init() {
 		Explain: "Decides reply correlation and stream well-formedness structurally: every responseHeader built anywhere in the agent package takes Seq from the handler's seq parameter (which at every call site is the request header's Seq) or from a stream's seq field (written only by its constructor from the seq argument); an event stream enqueues an event only behind some filter's Invoke(e)==true, non-blockingly, and has one consumer goroutine; a query stream emits an ack/response record only for a value actually received from the query's channels (receives from closable channels are comma-ok with the not-ok edge leaving the case without emitting), builds records only from received values, and sends the completion record only from the timer case, after which it returns.",
 		Run:     runC25,
 		Mutants: []Mutant{
+			{Name: "flush-outside-write-lock", File: "cmd/serf/command/agent/ipc.go", Func: "func (c *IPCClient) Send(", Old: "\tif err := c.writer.Flush(); err != nil {\n\t\treturn err\n\t}\n\n\treturn nil\n", New: "\tc.writeLock.Unlock()\n\terr := c.writer.Flush()\n\tc.writeLock.Lock()\n\treturn err\n", Expect: "R7"},
 			{Name: "expired-query-not-streamed", File: "cmd/serf/command/agent/ipc_event_stream.go", Func: "func (es *eventStream) sendQuery(", Old: "\tid := es.client.RegisterQuery(q)\n", New: "\tid := es.client.RegisterQuery(q)\n\tif id == 0 {\n\t\treturn nil\n\t}\n", Expect: "R6|sendQuery:always-sends"},
 			{Name: "request-header-reused", File: "cmd/serf/command/agent/ipc.go", Func: "func (i *AgentIPC) handleClient(", Old: "\tfor {\n", New: "\tvar reqHeader requestHeader\n\tfor {\n", Old2: "\t\tvar reqHeader requestHeader\n", New2: "", Expect: "R5"},
 			{Name: "reply-with-zero-seq", File: "cmd/serf/command/agent/ipc.go", Func: "func (i *AgentIPC) handleStats(", Old: "\t\tSeq:   seq,\n", New: "\t\tSeq:   0,\n", Expect: "R1"},
@@ -59,6 +61,21 @@ func ipcHandlerCalls(disp *ssa.Function) []ssa.Instruction {
 }
 
 func runC24(c *an.Ctx) {
+	c.Rule("R5 the gate itself reads nothing from the connection: only the command handlers decode (their own body); a rejection must not consume bytes of the next request")
+	if hr := am(c, "R5", "AgentIPC", "handleRequest"); hr != nil {
+		nDec := 0
+		an.Instrs(hr, func(in ssa.Instruction) {
+			cc := an.CallOf(in)
+			if cc == nil || len(cc.Args) == 0 {
+				return
+			}
+			if f := an.StaticCallee(cc); f != nil && an.CalleeName(f) == "codec.(*Decoder).Decode" {
+				nDec++
+				c.Add(false, "R5", "gate:reads-nothing", in, "handleRequest decodes from the connection itself ("+short(an.Path(cc.Args[0]))+"): a rejected or unknown command can swallow the next request", "call enumeration")
+			}
+		})
+		c.Add(nDec == 0, "R5", "gate:no-decode", hr, "handleRequest (and its helpers) never read from the connection", "call enumeration")
+	}
 	c.Rule("R1 every handler call except handshake is cut off by removing edges {version != 0, command == handshake}; every handler call except handshake/auth by removing edges {authKey == \"\", didAuth, command == auth, command == handshake}; each call is in the arm of its own command constant")
 	c.Rule("R2 handlers are called only from the dispatcher; the dispatcher only from the client loop")
 	c.Rule("R3 IPCClient.version written only in handleHandshake behind version in range ∧ version == 0; didAuth only in handleAuth behind key equality")
@@ -292,6 +309,47 @@ func seqOK(c *an.Ctx, d *discharger, fn *ssa.Function, v ssa.Value, depth int) b
 }
 
 func runC25(c *an.Ctx) {
+	c.Rule("R7 a record is written atomically: every Encode on the connection's encoder and the Flush of its writer happen with writeLock held, the Flush in the section of the Encodes (two senders on one connection cannot interleave or duplicate bytes)")
+	{
+		locks7 := an.NewLocks(c.P)
+		n7 := 0
+		var flushes, encodes []ssa.Instruction
+		for _, f := range c.P.FuncsIn(agent) {
+			an.Instrs(f, func(in ssa.Instruction) {
+				cc := an.CallOf(in)
+				if cc == nil || len(cc.Args) == 0 {
+					return
+				}
+				callee := an.StaticCallee(cc)
+				if callee == nil {
+					return
+				}
+				recv := an.Path(cc.Args[0])
+				switch {
+				case an.CalleeName(callee) == "bufio.(*Writer).Flush" && strings.HasSuffix(recv, ".writer"):
+					if t, _, ok := an.LoadedField(cc.Args[0]); ok && t == "IPCClient" {
+						flushes = append(flushes, in)
+					}
+				case an.CalleeName(callee) == "codec.(*Encoder).Encode" && strings.HasSuffix(recv, ".enc"):
+					if t, _, ok := an.LoadedField(cc.Args[0]); ok && t == "IPCClient" {
+						encodes = append(encodes, in)
+					}
+				}
+			})
+		}
+		for _, in := range append(append([]ssa.Instruction{}, flushes...), encodes...) {
+			n7++
+			c.Add(locks7.Held(in).HasW("IPCClient.writeLock"), "R7", "write-locked:"+an.FuncName(in.Parent())+":"+kindOf(in), in, "the connection is written with writeLock held", "must-held lockset")
+		}
+		for _, fl := range flushes {
+			for _, en := range encodes {
+				if en.Parent() == fl.Parent() || an.FuncName(en.Parent()) == an.FuncName(fl.Parent()) {
+					c.Add(!releaseBetween(fl.Parent(), en, fl, "IPCClient.writeLock"), "R7", "flush-in-encode-section:"+an.FuncName(fl.Parent()), fl, "the Flush happens in the critical section of the Encodes it flushes", "no release between encode and flush")
+				}
+			}
+		}
+		c.Floor("R7", "encoder/writer uses on IPC connections", n7, 3)
+	}
 	c.Rule("R1 Seq provenance of every responseHeader: handler seq parameter (== request header Seq at every call site) or a stream's seq field (constructor-only, from the seq argument)")
 	c.Rule("R2 event stream: enqueue behind some filter's Invoke(e)==true, non-blocking; one consumer goroutine per stream")
 	c.Rule("R3 closed-channel discipline: ack/response records are emitted only behind receive-ok of the query's channels")
